@@ -417,11 +417,15 @@ def anchor_pos(item, anchor):
 # extracted item *before* overlay insertion and are invertible (see invert_*).
 
 def r1_pub_fields(text):
-    """R1: add `pub` to named struct fields that lack it."""
+    """R1: add `pub` to named struct fields that lack it, and to the struct itself (a `pub fn`
+    contract may not name a private type or field; visibility has no run-time meaning)."""
     out, cnt = [], 0
     depth = 0
     for line in text.split("\n"):
         s = line.lstrip()
+        if depth == 0 and re.match(r"struct\s", s):
+            line = line[:len(line) - len(s)] + "/*R1*/pub " + s
+            cnt += 1
         if depth == 1 and re.match(r"[a-z_][A-Za-z0-9_]*\s*:", s):
             line = line[:len(line) - len(s)] + "/*R1*/pub " + s
             cnt += 1
